@@ -130,6 +130,12 @@ class MiniCtx(ContextInterface):
         self._arch = arch
         self.instructions = []
 
+    @property
+    def frame(self):
+        """The frame, as patterns expect it from an instruction context
+        (for example to add a literal constant)"""
+        return self._frame
+
     def move(self, dst, src):
         """Generate move"""
         self.emit(self._arch.move(dst, src))
